@@ -141,7 +141,7 @@ def det_params(name, rng):
     return p
 
 
-def valid_history(name, rng, params, allow_1d=False):
+def valid_history(name, rng, params, allow_1d=False, p1d=0.45):
     """list of (method, 2-d float array or (y_true, y_pred)); allow_1d: batch detectors may also get one-column data"""
     k = zoo.kind(name)
     if k == "y":
@@ -158,7 +158,7 @@ def valid_history(name, rng, params, allow_1d=False):
         items = zoo.workload(name, rng, params, d=d, length=(6 * params["window_size"] + 10) if name == "PCACD" else None)
         return [("update", np.asarray(v).reshape(1, -1)) for v in items[:260]], d
     d = 1 if name == "CDBD" else int(rng.integers(2, 4))
-    if allow_1d and rng.random() < 0.45:
+    if allow_1d and rng.random() < p1d:
         d = 1
     items = zoo.workload(name, rng, params, d=d, length=int(rng.integers(8, 22)))
     calls = []
@@ -249,6 +249,9 @@ def offenders(name, d, calls, pos, rng):
         for c in ("ndarray", "list", "frame"):
             out.append(("rows", c, "update", container(two, c)))
             out.append(("rows_wide", c, "update", container(np.hstack([two, two[:, :1]]), c)))
+    # no observation at all: a 2-d input of the right width with zero rows (an empty slice of the data set)
+    for c in ("ndarray", "frame"):
+        out.append(("zero_rows", c, "update" if (pos > 0 or k != "batch" or name == "KdqTreeBatch") else meth, container(base[:0], c)))
     if k == "xd":
         # a bare number handed to a detector that has established several columns: one column where d are expected
         out.append(("width", "scalar", "update", float(base[0, 0])))
@@ -308,7 +311,7 @@ def _run_case(case, ctx):
     if case["kind"] == "table":
         return run_table(name, rng, ctx)
     params = det_params(name, rng)
-    calls, d = valid_history(name, rng, params)
+    calls, d = valid_history(name, rng, params, allow_1d=True, p1d=0.25)
     k = zoo.kind(name)
     if case["kind"] == "cont":
         return run_containers(name, params, calls, d, rng, key, ctx)
